@@ -39,17 +39,17 @@ func runC05(cfg *C05Cfg, ch vs.Chooser, trace bool) (*Outcome, *vs.Result) {
 		out.Violations = append(out.Violations, Viol{Oracle: oracle, Sig: oracle + ":" + tag + ":" + sig, Detail: fmt.Sprintf(f, a...)})
 	}
 	var (
-		r          *remote.Remote
-		client     *rpc.Client
-		notified   bool
-		notifyErr  error
-		notifyT    int64
-		ioDone     bool
-		ioN        int
-		ioErr      error
-		replies    int
-		faultT     int64 = -1
-		stopT      int64 = -1
+		r         *remote.Remote
+		client    *rpc.Client
+		notified  bool
+		notifyErr error
+		notifyT   int64
+		ioDone    bool
+		ioN       int
+		ioErr     error
+		replies   int
+		faultT    int64 = -1
+		stopT     int64 = -1
 	)
 	res := vs.Run(vs.Config{Chooser: ch, Horizon: 6000, Trace: trace, TimeLimit: time.Duration(cfg.LimitS) * time.Second}, func() {
 		a, b := NewVConnPair()
